@@ -78,7 +78,14 @@ func vLabels(w *vWorld) []string {
 	l = append(l, w.exts...)
 	l = append(l, w.inners...)
 	sort.Strings(l)
-	return l
+	// an extension id listed twice is created twice under one label
+	var o []string
+	for i, x := range l {
+		if i == 0 || x != l[i-1] {
+			o = append(o, x)
+		}
+	}
+	return o
 }
 
 func TestVerifC10Lifecycle(t *testing.T) {
@@ -207,6 +214,20 @@ func TestVerifC10Lifecycle(t *testing.T) {
 					stopFails = append(stopFails, e.label)
 				}
 			}
+		}
+		// instances that were created but never started and never shut down (extensions.New keeps one instance per id)
+		orphans := 0
+		for _, e := range w.extInst {
+			if e.nStart == 0 && e.nStop == 0 {
+				orphans++
+				out.Linef("tr orphan %s", e.label)
+			}
+			if e.nStart > 1 || e.nStop > 1 {
+				out.Linef("viol sig=C10/extensions/one-instance-started-or-stopped-more-than-once %s starts=%d stops=%d", e.label, e.nStart, e.nStop)
+			}
+		}
+		if orphans > 0 {
+			out.Linef("stat ext_instances_created_and_dropped %d", orphans)
 		}
 		if startPanic != "" {
 			out.Linef("viol sig=C10/panic/start %s", vHex(startPanic))
